@@ -855,7 +855,21 @@ def r5_supported(ctx, prog):
 
 def run(ctx):
     prog = ctx.mir("main")
-    return [r1_cache_key(ctx, prog), r2_lock(ctx, prog), r3_tables(ctx), r4_entry_points(ctx, prog), r5_supported(ctx, prog)]
+    rules = [r1_cache_key(ctx, prog), r2_lock(ctx, prog), r3_tables(ctx), r4_entry_points(ctx, prog), r5_supported(ctx, prog)]
+    if ctx.tier == "thorough":
+        # the same MIR rules on the client-less build (no ssr / dynamic_load): other cfg branches of the same functions
+        for cfg in ("plain", "hydrate"):
+            p2 = ctx.mir(cfg)
+            for rr in (r1_cache_key(ctx, p2), r2_lock(ctx, p2), r4_entry_points(ctx, p2)):
+                tgt = [x for x in rules if x.id == rr.id][0]
+                for i in rr.instances:
+                    i = dict(i)
+                    i["site"] = "%s [cfg %s]" % (i["site"], cfg)
+                    tgt.instances.append(i)
+                for v in rr.violations:
+                    v.key = v.key + "[cfg %s]" % cfg
+                    tgt.violations.append(v)
+    return rules
 
 
 MANIFEST_ENTRY = {
